@@ -12,8 +12,10 @@
       partially updated one); `probe` tells the one-shot operations (`__call__`, `enc`, `dec`) apart from the
       streaming / re-configuration operations of the alphabet.
     * `reconf` is what an operation does to the configuration (identity for everything but `setkey`/`setrate`).
-    * `Inv` is the only thing a theorem may assume about scratch state (`True` for every kind but the two that keep a
-      cache by design: the AES key schedule and the key/constant words of the Salsa20/ChaCha input block).
+    * the theorems of Proofs.C10 quantify over ALL scratch states, reachable or not, for every kind but the two that keep
+      a cache by design (the AES key schedule `_AES__w`, also inside a mode; the key/constant words of the Salsa20/ChaCha
+      input block `p`): there they assume the invariants `AesO.Coherent` / `ModeO.Coherent` / "`p` differs from the
+      constructor's block only in the nonce and counter words", which every operation is shown to preserve.
 
   The results reuse the functional models (Model.HashObj/Hash, Keccak, Sha3, Md6, Blake, Hmac, Tlsh, Nilsimsa, Aes,
   Des, Serpent, Mode, ToyCipher, Salsa, Chacha).  Sibling instances and module-level singletons are composed with
@@ -67,7 +69,6 @@ structure Machine where
   out : State → Op → Res
   reconf : Cfg → Op → Cfg
   probe : Op → Bool
-  Inv : State → Prop
 
 namespace Machine
 
@@ -103,7 +104,6 @@ def pair (M N : Machine) : Machine where
   probe
     | .inl op => M.probe op
     | .inr op => N.probe op
-  Inv s := M.Inv s.1 ∧ N.Inv s.2
 
 end Machine
 
@@ -145,7 +145,6 @@ def machine : Machine where
   out s op := (step s op).2
   reconf c _ := c
   probe := isProbe
-  Inv _ := True
 
 end HashO
 
@@ -213,7 +212,6 @@ def machine : Machine where
   out s op := (step s op).2
   reconf := reconf
   probe := isProbe
-  Inv _ := True
 
 end KeccakO
 
@@ -239,7 +237,6 @@ def machine : Machine where
   out s op := (step s op).2
   reconf c _ := c
   probe _ := true
-  Inv _ := True
 
 end Md6O
 
@@ -295,7 +292,6 @@ def machine : Machine where
   out s op := (step s op).2
   reconf c _ := c
   probe := isProbe
-  Inv _ := True
 
 end BlakeO
 
@@ -391,7 +387,6 @@ def machine : Machine where
   out s op := (step s op).2
   reconf c _ := c
   probe := isProbe
-  Inv _ := True
 
 end Blake2O
 
@@ -479,7 +474,6 @@ def machine : Machine where
   out s op := (step s op).2
   reconf := reconf
   probe := isProbe
-  Inv _ := True
 
 end HmacO
 
@@ -524,22 +518,29 @@ def update (s : State) (data : List Nat) : State :=
   let st := (Tlsh.windows s.cfg.window data).foldl Tlsh.stepWindow ⟨s.checksum, List.replicate 256 0⟩
   { s with a_bucket := some st.bucket, checksum := st.checksum, data_len := s.data_len + data.length }
 
-/-- `final(data,force)`: `.ok .none` = Python `None`, `.ok .obj` = `self` -/
-def final (lcap : Nat → Nat) (s : State) (data : List Nat) (force : Bool) : State × Res :=
-  if s.lsh_code_valid then (s, .ok .obj) else
-  let s := if data.isEmpty then s else update s data
-  let l := s.data_len
-  if l < minLen ∨ (force = false ∧ l < minLenNoForce) then (s, .ok .none) else
+/-- the tail of `final` once the data has been absorbed: length gates, quartiles, code, header -/
+def finish (lcap : Nat → Nat) (s : State) (force : Bool) : State × Res :=
+  if s.data_len < minLen ∨ (force = false ∧ s.data_len < minLenNoForce) then (s, .ok .none) else
   match s.a_bucket with
   | none => (s, .error "TypeError:a_bucket")
   | some bucket =>
-    let q := Tlsh.quartiles s.cfg bucket
     if Tlsh.tooFew s.cfg.buckets (Tlsh.nonzero s.cfg bucket) then (s, .ok .none) else
-    let s := { s with tmp_code := List.zipWith (· + ·) s.tmp_code (Tlsh.bodyCode s.cfg q.1 q.2.1 q.2.2 bucket),
-                      Lvalue := lcap l % 256 }
-    if q.2.2 = 0 then (s, .error "ZeroDivisionError") else
-    ({ s with q1_ratio := some (q.1 * 100 / q.2.2 % 16), q2_ratio := some (q.2.1 * 100 / q.2.2 % 16),
-              lsh_code_valid := true }, .ok .obj)
+    if (Tlsh.quartiles s.cfg bucket).2.2 = 0 then
+      ({ s with tmp_code := List.zipWith (· + ·) s.tmp_code (Tlsh.bodyCode s.cfg (Tlsh.quartiles s.cfg bucket).1
+                              (Tlsh.quartiles s.cfg bucket).2.1 (Tlsh.quartiles s.cfg bucket).2.2 bucket),
+                Lvalue := lcap s.data_len % 256 }, .error "ZeroDivisionError")
+    else
+      ({ s with tmp_code := List.zipWith (· + ·) s.tmp_code (Tlsh.bodyCode s.cfg (Tlsh.quartiles s.cfg bucket).1
+                              (Tlsh.quartiles s.cfg bucket).2.1 (Tlsh.quartiles s.cfg bucket).2.2 bucket),
+                Lvalue := lcap s.data_len % 256,
+                q1_ratio := some ((Tlsh.quartiles s.cfg bucket).1 * 100 / (Tlsh.quartiles s.cfg bucket).2.2 % 16),
+                q2_ratio := some ((Tlsh.quartiles s.cfg bucket).2.1 * 100 / (Tlsh.quartiles s.cfg bucket).2.2 % 16),
+                lsh_code_valid := true }, .ok .obj)
+
+/-- `final(data,force)`: `.ok .none` = Python `None`, `.ok .obj` = `self` -/
+def final (lcap : Nat → Nat) (s : State) (data : List Nat) (force : Bool) : State × Res :=
+  if s.lsh_code_valid then (s, .ok .obj) else
+  finish lcap (if data.isEmpty then s else update s data) force
 
 def tobj (s : State) : Tlsh.TObj :=
   { chklen := s.cfg.chklen, checksum := s.checksum, lvalue := s.Lvalue, q1 := s.q1_ratio.getD 0, q2 := s.q2_ratio.getD 0,
@@ -588,7 +589,6 @@ def machine (lcap : Nat → Nat) : Machine where
   out s op := (step lcap s op).2
   reconf c _ := c
   probe := isProbe
-  Inv _ := True
 
 end TlshO
 
@@ -635,13 +635,12 @@ def machine : Machine where
   out s op := (step s op).2
   reconf c _ := c
   probe := isProbe
-  Inv _ := True
 
 end NilsimsaO
 
 /-! ## AES (aes.py): configuration `K` (and `Nb,Nk,Nr,blocksize` derived from it); scratch `_AES__w`, the key
     schedule cached by the first `keyschedule()`.  This is call-to-call state BY DESIGN (a memo): the results do not
-    depend on it as long as the cache is coherent, which is the invariant `Inv`. -/
+    depend on it as long as the cache is coherent, which is the invariant `Coherent`. -/
 namespace AesO
 
 structure State where
@@ -702,7 +701,6 @@ def machine : Machine where
   out s op := (step s op).2
   reconf c _ := c
   probe := isProbe
-  Inv := Coherent
 
 end AesO
 
@@ -731,7 +729,6 @@ def machine : Machine where
   out s op := (step s op).2
   reconf c _ := c
   probe _ := true
-  Inv _ := True
 
 end PureCipher
 
@@ -878,7 +875,6 @@ def machine : Machine where
   out s op := (step s op).2
   reconf c _ := c
   probe := isProbe
-  Inv := Coherent
 
 end ModeO
 
@@ -941,12 +937,6 @@ def isProbe : Op → Bool
   | .keystream .. => false
   | _ => true
 
-/-- `p` agrees with the constructor's block outside the nonce and counter words (and has its shape) -/
-def Framed (s : State) : Prop :=
-  s.p.size = s.cfg.p0.size ∧ s.p.ival.length = s.cfg.p0.ival.length ∧
-  ∀ i, i ∉ [(variant s.cfg).nonceAt, (variant s.cfg).nonceAt + 1, (variant s.cfg).ctrAt, (variant s.cfg).ctrAt + 1] →
-    s.p.ival[i]? = s.cfg.p0.ival[i]?
-
 def machine : Machine where
   State := State
   Cfg := Cfg
@@ -957,7 +947,6 @@ def machine : Machine where
   out s op := (step s op).2
   reconf c _ := c
   probe := isProbe
-  Inv := Framed
 
 end StreamO
 
